@@ -2,5 +2,6 @@
    bool/option/unit/list/prod/sumbool mapped to OCaml's; N, positive and nat stay
    Coq inductives). *)
 From Coq Require Import Extraction ExtrOcamlBasic.
-From MS Require Import L2.
-Extraction "model.ml" reply siphash24 cookie search_next search_next_end smack_ok.
+From MS Require Import L2 Spec.C06.
+Extraction "model.ml" reply siphash24 cookie search_next search_next_end smack_ok
+  ok_C06.
